@@ -835,9 +835,14 @@ func (e *c06Env) peerAck() string {
 
 func (e *c06Env) peerWindowUpdate(id uint32, inc uint32) string {
 	e.record(fmt.Sprintf("<w:%d:%d", id, inc))
+	// liveness as of before the frame is sent: the client may react faster than we look
+	live := false
+	if st := e.streams[id]; st != nil {
+		live = !st.dead()
+	}
 	e.fr.WriteWindowUpdate(id, inc)
 	forgot := false
-	if st := e.streams[id]; id == 0 || (st != nil && !st.dead()) {
+	if id == 0 || live {
 		e.woke = true // processWindowUpdate broadcasts
 	}
 	if id == 0 {
@@ -846,7 +851,7 @@ func (e *c06Env) peerWindowUpdate(id uint32, inc uint32) string {
 		}
 		e.connWin += int64(inc)
 	} else if st := e.streams[id]; st != nil {
-		if !st.dead() && (inc == 0 || st.win+int64(inc) > math.MaxInt32) {
+		if live && (inc == 0 || st.win+int64(inc) > math.MaxInt32) {
 			st.aborted = true
 			e.waitDone(st) // stream error: the client resets the stream
 			forgot = true
@@ -859,10 +864,14 @@ func (e *c06Env) peerWindowUpdate(id uint32, inc uint32) string {
 
 func (e *c06Env) peerRst(id uint32, code uint32) string {
 	e.record(fmt.Sprintf("<r:%d:%d", id, code))
+	live := false
+	if st := e.streams[id]; st != nil {
+		live = !st.dead()
+	}
 	e.fr.WriteRSTStream(id, xhttp2.ErrCode(code))
 	forgot := false
 	if st := e.streams[id]; st != nil {
-		if !st.dead() {
+		if live {
 			forgot = true
 			if code == 1 {
 				e.noReuse = true
@@ -877,12 +886,16 @@ func (e *c06Env) peerRst(id uint32, code uint32) string {
 
 func (e *c06Env) peerGoAway(last uint32) string {
 	e.record(fmt.Sprintf("<g:%d", last))
+	wasLive := map[uint32]bool{}
+	for _, id := range e.order {
+		wasLive[id] = !e.streams[id].dead()
+	}
 	e.fr.WriteGoAway(last, xhttp2.ErrCodeNo, nil)
 	e.goAwaySent = true
 	forgot := false
 	for _, id := range e.order {
 		st := e.streams[id]
-		if id > last && !st.dead() {
+		if id > last && wasLive[id] {
 			st.aborted = true
 			e.waitDone(st)
 			forgot = true
@@ -901,10 +914,10 @@ func (e *c06Env) peerHeaders(id uint32, end bool) string {
 	} else {
 		e.henc.WriteField(hpack.HeaderField{Name: "x-trailer", Value: "1"})
 	}
+	live := st != nil && !st.dead()
 	e.fr.WriteHeaders(xhttp2.HeadersFrameParam{StreamID: id, BlockFragment: e.hbuf.Bytes(), EndHeaders: true, EndStream: end})
 	forgot := false
 	if st != nil {
-		live := !st.dead()
 		st.phSent++
 		if live {
 			if st.peerEnd {
@@ -942,6 +955,10 @@ var c06Zeros = make([]byte, 1<<20)
 
 func (e *c06Env) peerData(id uint32, n, pad int, end bool) string {
 	e.record(fmt.Sprintf("<d:%d:%d:%d:%s", id, n, pad, c06B(end)))
+	live := false
+	if st := e.streams[id]; st != nil {
+		live = !st.dead()
+	}
 	if pad > 0 {
 		e.fr.WriteDataPadded(id, end, c06Zeros[:n], c06Zeros[:pad-1])
 	} else {
@@ -951,7 +968,7 @@ func (e *c06Env) peerData(id uint32, n, pad int, end bool) string {
 	forgot := false
 	if st := e.streams[id]; st != nil {
 		st.cwin -= int64(n + pad)
-		if !st.dead() {
+		if live {
 			if st.peerEnd || st.phSent == 0 {
 				st.aborted = true // DATA after END_STREAM / before HEADERS: stream error
 				e.waitDone(st)
